@@ -245,6 +245,15 @@ func (fr *Frame) callContract(st *State, sig *types.Signature, fn *ssa.Function,
 		T := sig.Results().At(i).Type()
 		t := r.havoc("r_"+mangle(shortFuncName(name)), r.eng.u.sortOf(T))
 		r.knownFacts(st, t, T)
+		// an object returned by the callee stores only references that exist when the callee returns
+		if pt, ok := types.Unalias(T).Underlying().(*types.Pointer); ok {
+			if _, ok := types.Unalias(pt.Elem()).Underlying().(*types.Struct); ok && !isTimeTime(pt.Elem()) {
+				okT := r.eng.u.okTerm(pt.Elem(), sel(r.heapGet(st, r.eng.heapKeyObj(pt.Elem())), t), wm1)
+				if okT.S != "true" {
+					r.assume(st, implies(not(eq(t, intLit(0))), okT))
+				}
+			}
+		}
 		res = append(res, t)
 		env.vars[rn[i]] = SV{t: t, T: T}
 		env.vars[fmt.Sprintf("result%d", i)] = SV{t: t, T: T}
